@@ -329,8 +329,16 @@ func runC15(r *run) {
 				r.emit("C17 reset", "ok")
 				slog.SetFlags((slog.LstdFlags &^ slog.Lcaller) | slog.LnoInterrupt)
 				lg := g.c02NewLogger(format, 1, false)
-				lg.l.SetLevel(slog.Level(L))
-				bridge := slog.NewLogLogger(lg.l, slog.Level(bl))
+				// the bridge may be made before the logger gets its level: admission is decided per message
+				var bridge *log.Logger
+				if g.chance(1, 2) {
+					lg.l.SetLevel(slog.Level([]int{2, 7, 4}[g.intn(3)]))
+					bridge = slog.NewLogLogger(lg.l, slog.Level(bl))
+					lg.l.SetLevel(slog.Level(L))
+				} else {
+					lg.l.SetLevel(slog.Level(L))
+					bridge = slog.NewLogLogger(lg.l, slog.Level(bl))
+				}
 				nmsg := 3
 				if r.tier == "thorough" {
 					nmsg = len(msgs) + 4
@@ -427,5 +435,4 @@ func runC15(r *run) {
 	}
 	os.Stdout, os.Stderr = realOut, realErr
 	slog.VerifResetGlobals()
-	_ = log.Flags
 }
